@@ -3,3 +3,4 @@ import AtomicaModel.Grid
 import AtomicaModel.Engine
 import AtomicaModel.EngineIO
 import AtomicaModel.Series
+import AtomicaModel.Coverage
